@@ -253,6 +253,35 @@ func main() {
 		}
 	}
 	o.Def("cacheFields", "List String", "["+strings.Join(fields, ", ")+"]")
+	// nothing is ever taken out of the cache and nothing besides the struct holds cache state: calls of clear/delete anywhere
+	// in cache.go, and the package-level variables and constants of the file
+	var removals, vars, consts []string
+	ast.Inspect(f.AST, func(n ast.Node) bool {
+		if c, ok := n.(*ast.CallExpr); ok {
+			if id, ok := c.Fun.(*ast.Ident); ok && (id.Name == "clear" || id.Name == "delete") {
+				removals = append(removals, lib.LeanString(id.Name))
+			}
+		}
+		return true
+	})
+	for _, d := range f.AST.Decls {
+		if gd, ok := d.(*ast.GenDecl); ok {
+			for _, sp := range gd.Specs {
+				if vs, ok := sp.(*ast.ValueSpec); ok {
+					for _, n := range vs.Names {
+						if gd.Tok.String() == "const" {
+							consts = append(consts, lib.LeanString(n.Name))
+						} else {
+							vars = append(vars, lib.LeanString(n.Name))
+						}
+					}
+				}
+			}
+		}
+	}
+	o.Def("entryRemovals", "List String", "["+strings.Join(removals, ", ")+"]")
+	o.Def("packageVars", "List String", "["+strings.Join(vars, ", ")+"]")
+	o.Def("packageConsts", "List String", "["+strings.Join(consts, ", ")+"]")
 	o.Def("mutexType", "String", lib.LeanString(mutexType))
 	o.Def("entriesType", "String", lib.LeanString(entriesType))
 }
